@@ -75,8 +75,6 @@ def slotted(  # noqa: C901
                 "See Issue !typical#104 on GitHub for more information."
             ) from None
 
-        _stack.add(key)
-
         if (
             sys.version_info >= (3, 10) and constants.PKG_NAME not in cls.__module__
         ):  # pragma: no cover
@@ -114,12 +112,18 @@ def slotted(  # noqa: C901
         ):
             cls_dict["__setstate__"] = _slots_setstate
 
-        # Prepare new class with slots
-        new_cls = cls.__class__(cls.__name__, cls.__bases__, cls_dict)
+        # Prepare new class with slots.
+        # The guard only needs to cover the metaclass call (where re-entrancy happens)
+        #   and must be released even if that call fails, otherwise a later class with
+        #   the same repr is refused.
+        _stack.add(key)
+        try:
+            new_cls = cls.__class__(cls.__name__, cls.__bases__, cls_dict)
+        finally:
+            _stack.discard(key)
         new_cls.__qualname__ = cls.__qualname__
         new_cls.__module__ = cls.__module__
 
-        _stack.clear()
         return new_cls
 
     return wrap if _cls is None else wrap(_cls)
